@@ -51,6 +51,7 @@ type T struct {
 	Down       bool   `json:"down,omitempty"`      // the target answers 500 from now on (still discovered)
 	FailNext   bool   `json:"fail_next,omitempty"` // the next scrape fails once
 	est        *target.ScrapeStatus
+	estDone    bool // the explorer's probe has succeeded: it never probes this target again
 }
 
 // Seed is an initial store content of one shard: hash -> state.
@@ -247,11 +248,18 @@ func (w *World) Close() {
 	vrt.ClockOff()
 }
 
+// refreshEst is the explorer: one object per discovered target, handed out on every lookup (the coordinator gets
+// the explorer's own object, not a copy); it is probed until the first success and never again - later growth or
+// failures of the target do not reach it, and neither is anything repaired that somebody else wrote into it.
 func (w *World) refreshEst(t *T) {
 	if t.est == nil {
 		t.est = target.NewScrapeStatus(0, 0)
 	}
+	if t.estDone {
+		return
+	}
 	if t.Healthy {
+		t.estDone = true
 		t.est.Health = pscrape.HealthGood
 		t.est.Series, t.est.TotalSeries = int64(t.Kept), int64(t.Total)
 	} else {
